@@ -1,5 +1,5 @@
 import PqV.Lemmas.Page
-import PqV.Impl.Kernels
+import PqV.Lemmas.KHybrid
 /-!
 # C03 — valid flat Parquet files from any writer decode to exactly what they encode
 
@@ -50,6 +50,18 @@ theorem null_iff_below_max (m : Nat) (defs : List Nat) (vals : List Cell)
     (h : vals.length = countMax m defs) (hnn : ∀ v ∈ vals, v ≠ Cell.null) (i : Nat) (hi : i < defs.length) :
     ((scatter m defs vals)[i]'(by rw [scatter_length]; exact hi) = Cell.null) ↔ defs[i] ≠ m :=
   scatter_null_iff m defs vals h hnn i hi
+
+/-- **the compiled reader's hybrid kernel on any index width 1..24 and any mixture of runs**: the
+    code-shaped model of `read_rle_bit_packed_hybrid` (tied to the compiled extension by the C11
+    correspondence) returns exactly what the specification decoder returns — so dictionary indices and
+    definition/repetition levels written by ANY conforming writer at these widths decode right. -/
+theorem kernel_hybrid_any_runs (w : Nat) (hw1 : 1 ≤ w) (hw : w ≤ 24) (rs : List Run) (pre post : List Nat) (n : Nat)
+    (hok : ∀ r ∈ rs, r.wf w = true ∧ RunOk r) (hpre : ∀ b ∈ pre, b < 256) (hpost : ∀ b ∈ post, b < 256)
+    (hn : n ≤ (rs.flatMap Run.values).length) :
+    ∃ o' loc', readHybrid (pre ++ encodeRuns w rs ++ post) pre.length w (encodeRuns w rs).length { items := [], cap := 4 * n } 4
+        = .ok (o', loc') ∧ o'.items = (rs.flatMap Run.values).take n := by
+  obtain ⟨o', loc', h1, h2⟩ := readHybrid_eq_spec w hw1 hw rs pre post n hok hpre hpost hn
+  exact ⟨o', loc', h1, by rw [h2, decodeHybrid_encodeRuns w n rs post (fun r hr => (hok r hr).1) hn]⟩
 
 /-! ### non-vacuity -/
 example : ∀ r ∈ [Run.rle 3 5, Run.bp [1, 2, 3, 4, 5, 6, 7, 0], Run.rle 0 1], r.wf 3 = true := by decide
